@@ -85,6 +85,7 @@ func init() {
 			"equality of the copy with the original; sharing through leaf-list elements that are wrapper-union pointers (element kind is not decided statically).")
 		ruleCopyAlias(c, r)
 		ruleAppendAlias(c, r, c.anchored("C04"), 3)
+		ruleUnionCopy(c, r)
 	})
 	register("C05", func(c *Ctx, r *Report) {
 		r.Decides("MergeStructs deep-copies a and merges b into the copy (inputs never destinations); merge options are forwarded to every recursive copy call; every sink in the copy family writes fresh or guarded values.",
@@ -94,6 +95,7 @@ func init() {
 		ruleIfaceIdentity(c, r)
 		ruleMergeUnset(c, r)
 		ruleBinaryLeaf(c, r)
+		ruleUnionCopy(c, r)
 	})
 }
 
